@@ -43,6 +43,7 @@ def run_tlc(module, cfg_text, env=None, workers=16, args=(), timeout=1800, xmx=N
         props = ['-XX:+UseParallelGC'] if workers > 2 else ['-XX:+UseSerialGC']
         if xmx:
             props.append('-Xmx' + xmx)
+        props.append('-Djava.io.tmpdir=' + tmp)          # TLC leaves an empty tlc-<n> directory per run in the JVM's tmpdir
         cmd = _java(props) + ['-workers', str(workers), '-metadir', os.path.join(tmp, 'meta'), '-noGenerateSpecTE',
                               '-config', cfg] + list(args) + [os.path.join(SPEC, module + '.tla')]
         e = dict(os.environ)
@@ -276,7 +277,7 @@ def simulate(module, cfg_text, num, depth, seed, var, timeout=900):
         cfg = os.path.join(tmp, module + '.cfg')
         with open(cfg, 'w') as f:
             f.write(cfg_text)
-        cmd = _java(['-XX:+UseSerialGC']) + ['-simulate', f'file={tmp}/tr,num={num}', '-depth', str(depth), '-workers', '1', '-seed', str(seed),
+        cmd = _java(['-XX:+UseSerialGC', '-Djava.io.tmpdir=' + tmp]) + ['-simulate', f'file={tmp}/tr,num={num}', '-depth', str(depth), '-workers', '1', '-seed', str(seed),
                                                '-metadir', os.path.join(tmp, 'meta'), '-config', cfg, os.path.join(SPEC, module + '.tla')]
         p = subprocess.run(cmd, cwd=SPEC, capture_output=True, text=True, timeout=timeout, preexec_fn=_die_with_parent)
         out = []
